@@ -1,5 +1,6 @@
 import PynModel.Driver
 import PynModel.Core.Series
+import PynModel.Core.Group
 /-!
 # Line protocol, part 2: container-level operations (series constructor and histories)
 `snew <t> <rows> <sup|none>`            → `t|rows|sup|num/den`
@@ -74,11 +75,78 @@ def seriesStep (toks : List String) : String :=
     | _, _, _ => "bad-op"
   | _ => "bad-op"
 
+/-! ## groups
+`ghist <members> <sup|none> <bypass> <op;op;…>`; members `key@t@rows@sup` joined by `+` (`-` = none);
+ops: `S/<keys>` select, `R/<pairs>` restrict, `G/<a>/<b>` get, `M/<members>/<sup|none>/<resetIndex>/<resetSupport>`
+merge with the group built from those members, `Y` to_tsd → to_tsgroup.  Output: state after the
+constructor and after each op (`ERR <kind>` where the op is rejected; the state is then unchanged). -/
+def parseMember (s : String) : Option Member :=
+  match s.splitOn "@" with
+  | [k, t, rows, sup] =>
+    match k.toInt?, parseArr t, parseNatArr rows, parsePairs sup with
+    | some k, some t, some rows, some sup => if t.size = rows.size then some ⟨k, ⟨t, rows, sup⟩⟩ else none
+    | _, _, _, _ => none
+  | _ => none
+
+def parseMembers (s : String) : Option (List Member) :=
+  if s == "-" then some [] else
+  (s.splitOn "+").foldr (fun x acc => match parseMember x, acc with
+    | some m, some l => some (m :: l)
+    | _, _ => none) (some [])
+
+def showGErr : GErr → String
+  | .dupKey => "ERR dupkey" | .emptyUnion => "ERR emptyunion" | .keyError => "ERR key"
+  | .overlap => "ERR overlap" | .support => "ERR support"
+
+def showGroup (g : Group) : String :=
+  showPairs g.sup ++ "|" ++ (if g.ms.isEmpty then "-" else
+    "+".intercalate (g.ms.map fun m => s!"{m.key}@{showArr m.s.t}@{showArr m.s.rows}@{showPairs m.s.sup}"))
+
+def parseBool (s : String) : Option Bool := if s == "1" then some true else if s == "0" then some false else none
+
+def groupOp (g : Group) (s : String) : Option (Except GErr Group) :=
+  match s.splitOn "/" with
+  | ["S", ks] => (parseArr ks).map fun ks => g.select ks.toList
+  | ["R", p] => (parsePairs p).map fun p => g.restrict p
+  | ["G", a, b] => match a.toInt?, b.toInt? with
+    | some a, some b => some (g.get a b)
+    | _, _ => none
+  | ["M", ms, sup, ri, rs] =>
+    match parseMembers ms, parseSupOpt sup, parseBool ri, parseBool rs with
+    | some ms, some sup, some ri, some rs =>
+      match Group.new ms sup false with
+      | .ok h => some (g.merge h ri rs)
+      | .error e => some (.error e)
+    | _, _, _, _ => none
+  | ["Y"] => some g.roundtrip
+  | _ => none
+
+def groupStep (toks : List String) : String :=
+  match toks with
+  | ["ghist", ms, sup, bypass, ops] =>
+    match parseMembers ms, parseSupOpt sup, parseBool bypass with
+    | some ms, some sup, some bypass =>
+      match Group.new ms sup bypass with
+      | .error e => showGErr e
+      | .ok g0 =>
+        let rec go (g : Group) (acc : List String) : List String → Option (List String)
+          | [] => some acc.reverse
+          | o :: os => match groupOp g o with
+            | some (.ok g') => go g' (showGroup g' :: acc) os
+            | some (.error e) => go g (showGErr e :: acc) os
+            | none => none
+        match go g0 [showGroup g0] (if ops == "-" then [] else ops.splitOn ";") with
+        | some l => ";".intercalate l
+        | none => "bad-op"
+    | _, _, _ => "bad-op"
+  | _ => "bad-op"
+
 def stepAll (line : String) : String :=
   let toks := (line.trimAscii.toString.splitOn " ").filter (· ≠ "")
   match toks with
   | "snew" :: _ => seriesStep toks
   | "hist" :: _ => seriesStep toks
+  | "ghist" :: _ => groupStep toks
   | _ => kernelStep toks
 
 end Pyn
